@@ -7,6 +7,7 @@ import array
 import collections
 import functools
 import hashlib
+import os
 import pickle
 import sys
 import time
@@ -435,24 +436,29 @@ class DiskCache(_CacheBase):
             return self.lru_cache.get(key)
 
         file_path = self._get_file_path(key)
-        if file_path.exists():
+        try:
             with file_path.open("rb") as f:
                 value = (
                     cloudpickle.load(f) if self.use_cloudpickle else pickle.load(f)  # noqa: S301
                 )
-            if self.with_lru_cache:
-                self.lru_cache.put(key, value)
-            return value
-        return None
+        except FileNotFoundError:  # never stored, or evicted by another process meanwhile
+            return None
+        if self.with_lru_cache:
+            self.lru_cache.put(key, value)
+        return value
 
     def put(self, key: Hashable, value: Any) -> None:
         """Insert a key value pair into the cache."""
         file_path = self._get_file_path(key)
-        with file_path.open("wb") as f:
+        # Write to a temporary file and rename it into place, so that a concurrent reader
+        # (another process sharing the cache directory) never sees a partially written file.
+        tmp_path = file_path.with_name(f".{file_path.name}.{os.getpid()}.tmp")
+        with tmp_path.open("wb") as f:
             if self.use_cloudpickle:
                 cloudpickle.dump(value, f)
             else:
                 pickle.dump(value, f)
+        tmp_path.replace(file_path)
         if self.with_lru_cache:
             self.lru_cache.put(key, value)
         self._evict_if_needed()
@@ -462,11 +468,14 @@ class DiskCache(_CacheBase):
 
     def _evict_if_needed(self) -> None:
         if self.max_size is not None:
-            files = self._all_files()
-            for _ in range(len(files) - self.max_size):
-                oldest_file = min(files, key=lambda f: f.stat().st_ctime_ns)
-                oldest_file.unlink()
-                files.remove(oldest_file)
+            ages = {}
+            for file in self._all_files():
+                with suppress(FileNotFoundError):  # another process may evict concurrently
+                    ages[file] = file.stat().st_ctime_ns
+            for _ in range(len(ages) - self.max_size):
+                oldest_file = min(ages, key=ages.__getitem__)
+                oldest_file.unlink(missing_ok=True)
+                del ages[oldest_file]
 
     def __contains__(self, key: Hashable) -> bool:
         """Check if a key is present in the cache."""
